@@ -82,7 +82,23 @@ export async function run(ctx) {
       const first = res.diagnostics?.[0];
       // (an AnyhowError carries its reason in the message only)
       const why = first && first.variant === "AnyhowError" ? ":" + String(first.message).replace(/^Internal Error: /, "").replace(/[:'"`].*$/, "").trim().split(/\s+/).slice(0, 4).join("-") : "";
-      const sig = `rejected|${res.outcome}|${first ? first.variant + why : res.panic ? res.panic.file + ":" + res.panic.line : res.message || ""}`;
+      // attribution by re-execution: does the program compile once every `typeof Enum` is spelled as the
+      // object type of the enum's members (what TypeScript means by it)?
+      let cause = "";
+      if (prog && /typeof \(?E\d+/.test(text)) {
+        const spell = (x) => {
+          if (x.k !== "typeof" || !x.ofEnum) return x;
+          const en = prog.decls.find((d) => d.d === "enum" && d.name === x.name);
+          if (!en) return x;
+          let t = A.obj(en.members.map((m) => A.prop(m.name, A.lit(m.v))));
+          for (const seg of x.path) t = t.props.find((q) => q.name === seg).t;
+          return t;
+        };
+        const prog2 = { decls: prog.decls.map((d) => A.mapDecl(d, spell)), parsers: prog.parsers.map((q) => ({ ...q, t: A.mapType(q.t, spell) })) };
+        const r2 = await compileText(ctx, renderProgram(prog2));
+        if (r2.parsers) cause = "|cause:typeof-enum-spelled-as-members-object-compiles";
+      }
+      const sig = `rejected|${res.outcome}|${first ? first.variant + why : res.panic ? res.panic.file + ":" + res.panic.line : res.message || ""}${cause}`;
       ctx.violation({ signature: sig, clause: "supported-program-rejected", detail: (first ? first.message : JSON.stringify(res.panic || res.message || res.outcome)) + " in\n" + text, replay: { kind: "compile", text } });
     },
   })) {
